@@ -130,6 +130,8 @@ FAMILIES['C08'] = [
     fam('buffer-chain', ['BPUT HOLD BPUT', 'TADD BGET BGET'], BUFCAP=2, w=10),
     fam('buffer-chain-3', ['BPUT HOLD BPUT', 'TADD BGET HOLD', 'BGET'], tier='thorough', BUFCAP=2, w=60),
     fam('buffer-put-blocked', ['BPUT BPUT', 'HOLD BGET', 'TADD BPUT'], BUFCAP=1, w=8),
+    fam('buffer-two-putters-one-get', ['BPUT HOLD HOLD BGET', 'HOLD BPUT', 'HOLD BPUT'], BUFCAP=4, w=12),   # one get makes room for both blocked putters: the first passes the left-over space on
+    fam('buffer-two-getters-one-put', ['HOLD HOLD BPUT', 'BGET', 'BGET'], BUFCAP=4, w=8),
     fam('oq-both-ends', ['OPUT OPUT HOLD OPUT', 'TADD OGET HOLD OGET', 'OGET'], QCAP=1, w=3),
     fam('oq-granted-getter-stopped', ['HOLD OPUT', 'OGET', 'OGET', 'HOLD STOP1'], QCAP=2, w=3),
     fam('pq-granted-getter-interrupted', ['HOLD QPUT', 'QGET', 'QGET', 'HOLD INTR1'], QCAP=2, PRIOSYM=1, w=5),
@@ -144,6 +146,8 @@ FAMILIES['C08'] = [
 ]
 
 FAMILIES['C09'] = [
+    fam('waitp-timeout-awaited-ends-same-instant', ['HOLD', 'TADD WAITP0 HOLD HOLD'], w=3),   # end of the awaited process, the waiter's timer and the end notice in one instant: resumed exactly once
+    fam('waitp-timeout-awaited-ends-same-instant-prio', ['HOLD', 'TADD WAITP0 HOLD HOLD'], PRIOSYM=1, w=4),
     fam('end-holding-waited', ['ACQ PACQ TADD HOLD', 'WAITP0 HOLD', 'ACQ REL', 'TADD PACQ'], w=4),
     fam('end-holding-waited', ['ACQ PACQ TADD HOLD', 'WAITP0 HOLD', 'ACQ REL', 'TADD PACQ'], witness=True, w=4),
     fam('exit-holding-waited', ['ACQ PACQ TADD HOLD EXIT', 'WAITP0 HOLD', 'WAITP0 ACQ REL'], w=4),
